@@ -131,8 +131,115 @@ def duplicate_names_probe(ctx, n: int) -> None:
         F.examine(rep, case, do_shrink=False)
 
 
+def _all_tensors(obj, depth: int = 0, seen=None) -> dict:
+    """every tensor reachable from the object's state (buffers, parameters, sub-modules, plain attributes such as a stored
+    read beam or a cached image): path -> tensor"""
+    import torch
+    seen = seen if seen is not None else set()
+    out = {}
+    if id(obj) in seen or depth > 4:
+        return out
+    seen.add(id(obj))
+    if isinstance(obj, torch.Tensor):
+        return {"": obj}
+    items = []
+    if isinstance(obj, (list, tuple)):
+        items = [(f"[{i}]", v) for i, v in enumerate(obj)]
+    elif isinstance(obj, dict):
+        items = [(f"[{k!r}]", v) for k, v in obj.items()]
+    elif hasattr(obj, "__dict__"):
+        items = [("." + k, v) for k, v in vars(obj).items() if k not in ("_backward_hooks", "_forward_hooks", "training")]
+    for k, v in items:
+        for kk, t in _all_tensors(v, depth + 1, seen).items():
+            out[k + kk] = t
+    return out
+
+
+def used_clone_case(rep, r: dict) -> None:
+    """clone() of an object that has been *used* (tracked beams, diagnostics read out): nothing the clone holds shares storage
+    with anything the original holds, and working on the clone's read-out leaves the original's untouched"""
+    import numpy as np
+    import torch
+    import cheetah
+    import lattices as LT
+    from fals import _full as FU
+    dtype = FU.DTYPES[r["dtype"]]
+    el = FU.build_full(r["record"], dtype)
+    P = np.array(r["particles"], dtype=float)
+    for bt in r["beams"]:
+        b = FU.make_beam(bt, P, r["energy"], dtype)
+        try:
+            el.track(b)
+        except Exception:  # noqa: BLE001
+            pass
+        for d in ([el] if not isinstance(el, cheetah.Segment) else FU.real_leaves(el)):
+            if hasattr(d, "reading"):
+                try:
+                    _ = d.reading
+                except Exception:  # noqa: BLE001
+                    pass
+    cname = type(el).__name__
+    cl = el.clone()
+    to, tc = _all_tensors(el), _all_tensors(cl)
+    ptr = {}
+    for k, t in to.items():
+        if t.numel() > 0:
+            ptr.setdefault(t.untyped_storage().data_ptr(), k)
+    for k, t in tc.items():
+        if t.numel() > 0 and t.untyped_storage().data_ptr() in ptr:
+            what = k.split(".")[-1] if "." in k else k
+            rep.fail("falsifier", f"C15|{r['record']['cls']}.clone|after use|shared-storage:{'read-out state' if any(w in k for w in ('read_beam', 'cached', 'reading')) else what}",
+                     f"clone of a used {cname}: clone{k} shares its storage with original{ptr[t.untyped_storage().data_ptr()]}", r)
+            return
+    for d0, d1 in zip(([el] if not isinstance(el, cheetah.Segment) else FU.real_leaves(el)), ([cl] if not isinstance(cl, cheetah.Segment) else FU.real_leaves(cl))):
+        if not hasattr(d0, "reading"):
+            continue
+        try:
+            r0 = d0.reading
+            r1 = d1.reading
+        except Exception:  # noqa: BLE001
+            continue
+        if isinstance(r0, torch.Tensor) and isinstance(r1, torch.Tensor) and r1.numel() > 0:
+            keep = r0.detach().clone()
+            with torch.no_grad():
+                r1.mul_(0.5).add_(1.0)
+            if not torch.equal(torch.nan_to_num(d0.reading.detach()), torch.nan_to_num(keep)):
+                rep.fail("falsifier", f"C15|{type(d0).__name__}.clone|after use|reading not independent", f"scaling the clone's {type(d0).__name__}.reading in "
+                         "place changed the original's reading", r)
+                return
+
+
+def used_clone_probe(ctx, n: int) -> None:
+    from fals import _full as FU
+    rep, rng = ctx.report, ctx.rng
+    kinds = ["Screen", "BPM", "Segment", "Screen", "Quadrupole", "Dipole", "Aperture", "Cavity", "Segment", "SpaceChargeKick"]
+    for i in range(n):
+        kind = kinds[i % len(kinds)]
+        if kind == "Segment":
+            case = F.gen_element_case(rng)
+            rec = case["record"]
+            for lf in FU.leaves(rec.get("elements", [])):
+                if lf["cls"] in ("Screen", "BPM"):
+                    lf["args"]["is_active"] = True
+        else:
+            rec = FU.gen_full(rng, kind, "el", p_set=0.7)
+            if kind in ("Screen", "BPM"):
+                rec["args"]["is_active"] = True
+        r = {"kind": "used_clone", "record": rec, "dtype": FU.pick(rng, "float64", "float32"), "energy": 1e8,
+             "particles": FU.gen_particles(rng, 8).tolist(), "beams": [["ParticleBeam"], ["ParameterBeam"], ["ParticleBeam", "ParameterBeam"]][int(rng.integers(3))]}
+        rep.fals_cases += 1
+        rep.count("probe:used-clone:" + kind)
+        rep.case(("used_clone", kind, tuple(r["beams"])), None)
+        try:
+            used_clone_case(rep, r)
+        except Exception as ex:  # noqa: BLE001
+            rep.count(f"used-clone:rejected:{type(ex).__name__}")
+
+
 def run(ctx) -> None:
     parameter_probe(ctx, ctx.n(28, 400))
+    if F is not None:
+        used_clone_probe(ctx, ctx.n(20, 300))
     if F is not None:
         duplicate_names_probe(ctx, ctx.n(12, 250))
     if F is not None:
@@ -142,6 +249,8 @@ def run(ctx) -> None:
 def corpus_case(ctx, r: dict) -> None:
     if r.get("kind") == "trainable":
         return parameter_case(ctx.report, r)
+    if r.get("kind") == "used_clone":
+        return used_clone_case(ctx.report, r)
     if F is not None and hasattr(F, "corpus_case"):
         F.corpus_case(ctx, r)
 
